@@ -9,3 +9,4 @@ from vt.contracts import angle  # noqa: F401,E402
 from vt.contracts import dalitz  # noqa: F401,E402
 from vt.contracts import euler  # noqa: F401,E402
 from vt.contracts import roundtrip  # noqa: F401,E402
+from vt.contracts import align_sym  # noqa: F401,E402  (cal_chain_boost: rest-frame momenta nested along the path)
